@@ -50,6 +50,15 @@ def gen_case(rng):
     return case
 
 
+def same_list(a, b):
+    """list equality that tolerates entries with no plain truth value (arrays returned in place of labels)"""
+    try:
+        a, b = list(a), list(b)
+        return len(a) == len(b) and all(type(x) is type(y) and bool(x == y) for x, y in zip(a, b))
+    except Exception:  # noqa
+        return False
+
+
 def check(case, viol):
     shape = tuple(case['shape'])
     n = case['n']
@@ -76,7 +85,14 @@ def check(case, viol):
     boxes = [box_in(b) + tuple(case['inline_b'][i]) + (('id', i),) for i, b in enumerate(case['boxes'])]
     kps = [kp_in(k) + tuple(case['inline_k'][i]) + (('id', i),) for i, k in enumerate(case['kps'])]
     add = {'bboxes2': 'bboxes', 'keypoints2': 'keypoints'} if case['additional'] else None
-    pipe = A.Compose([R.make_node(s) for s in case['pipeline']],
+    specs = case['pipeline']
+    if add and (bfields or kfields):
+        # declared label fields are shared by the primary and the additional targets (known finding when the targets
+        # lose different annotations): exercised with pipelines that drop nothing, where every target keeps its length,
+        # every label list must come back as given and every item must keep its own inline fields
+        specs = [sp for sp in specs if sp['cls'] in ('HorizontalFlip', 'Transpose', 'NoOp')] or [S.L('HorizontalFlip')]
+        case = dict(case, pipeline=specs)
+    pipe = A.Compose([R.make_node(s) for s in specs],
                      bbox_params=A.BboxParams(bfmt, label_fields=bfields or None,
                                               check_each_transform=case['each']),
                      keypoint_params=A.KeypointParams(kfmt, label_fields=kfields or None,
@@ -96,13 +112,10 @@ def check(case, viol):
         data[f] = list(case['box_fields'][f])
     for f in kfields:
         data[f] = list(case['kp_fields'][f])
-    if add and not bfields and not kfields:
+    if add:
         if use_boxes:
             data['bboxes2'] = list(reversed(boxes))
         data['keypoints2'] = list(reversed(kps))
-    elif add:
-        # with declared label fields the additional targets share them (documented limitation, known finding)
-        return
     R.seed(case['seed'])
     try:
         res = pipe(**data)
@@ -128,7 +141,7 @@ def check(case, viol):
         for f in fields:
             vals = res[f]
             exp = [fieldvals[f][i] for i in ids]
-            if list(vals) != exp:
+            if not same_list(vals, exp):
                 bad.append((f, vals, exp))
         # the identity carried in the last inline field is itself a trailing field: where the geometry map is a plain
         # shift (Crop / NoOp / dropout only), the annotation's own coordinates say which input it is
